@@ -105,13 +105,37 @@ def run_case(case):
             plan = [('system-w', eng), ('lex_inf', eng), ('system-w', 'z3'), ('lex_inf', 'z3')]
             if not weakly and len(conds) <= 5:
                 plan.append(('c-inference', eng))
-            for (system, p) in plan:
-                try:
-                    impl.ask(impl.mk_bb(sig, conds), system, p, impl.mk_queries(qs), weakly=weakly)
-                except Exception as e:
-                    if type(e).__name__ == 'SoftTimeout':
-                        raise
-                    res['inconclusive'].append('%s/%s raised %s: %s' % (system, p, type(e).__name__, str(e)[:100]))
+            reuse = rng.random() < 0.2
+            undo = []
+            if reuse:
+                # ONE optimizer object per epistemic state serves all enumerations of a run (different hard
+                # clauses, different ignore lists): an enumeration is a function of its arguments, not of what
+                # the object enumerated before
+                import inference.optimizer as _opt
+                memo = {}
+
+                def shared_optimizer(es_, _orig=_opt.create_optimizer):
+                    k = id(es_)
+                    if k not in memo:
+                        memo[k] = (es_, _orig(es_))
+                    return memo[k][1]
+                import inference.c_inference as _m1, inference.system_w as _m2, inference.lex_inf as _m3
+                for mod in (_m1, _m2, _m3):
+                    if getattr(mod, 'create_optimizer', None) is _opt.create_optimizer:
+                        undo.append((mod, mod.create_optimizer))
+                        mod.create_optimizer = shared_optimizer
+                contracts.LOG.bump('runs_with_one_optimizer_object_per_state' if undo else 'optimizer_reuse_not_attached')
+            try:
+                for (system, p) in plan:
+                    try:
+                        impl.ask(impl.mk_bb(sig, conds), system, p, impl.mk_queries(qs), weakly=weakly)
+                    except Exception as e:
+                        if type(e).__name__ == 'SoftTimeout':
+                            raise
+                        res['inconclusive'].append('%s/%s raised %s: %s' % (system, p, type(e).__name__, str(e)[:100]))
+            finally:
+                for mod, orig in undo:
+                    mod.create_optimizer = orig
             if rng.random() < 0.15:
                 # the same enumerations under a budget that runs out at the k-th look at the clock (logical
                 # clock, vf/instrument.py): an enumeration may give up by raising, but whatever it RETURNS is
